@@ -233,6 +233,8 @@ fn wrop_from_json(j: &J) -> Result<WrOp, String> {
 enum WStep {
     Enq(Recipe),
     Wr(WrOp),
+    /// clear_write_buffer(): the owner discards everything pending (what a server does on hang-up)
+    Clear,
 }
 
 #[derive(Clone, Debug)]
@@ -252,6 +254,7 @@ impl WrCase {
                         .map(|s| match s {
                             WStep::Enq(r) => json::obj(vec![("enqueue", r.to_json())]),
                             WStep::Wr(o) => json::obj(vec![("try_write", wrop_to_json(o))]),
+                            WStep::Clear => json::obj(vec![("clear_write_buffer", J::Bool(true))]),
                         })
                         .collect(),
                 ),
@@ -265,6 +268,8 @@ impl WrCase {
                 steps.push(WStep::Enq(Recipe::from_json(r)?));
             } else if let Some(o) = s.get("try_write") {
                 steps.push(WStep::Wr(wrop_from_json(o)?));
+            } else if s.get("clear_write_buffer").is_some() {
+                steps.push(WStep::Clear);
             } else {
                 return Err("unknown step".into());
             }
@@ -311,6 +316,8 @@ impl Prop for C06 {
             if want_enq && enq < 6 {
                 enq += 1;
                 steps.push(WStep::Enq(gen_recipe(rng, 3, 8192)));
+            } else if rng.chance(1, 25) {
+                steps.push(WStep::Clear);
             } else {
                 let w = if faulty { [30, 10, 10, 20, 8, 6, 6, 5, 5] } else { [30, 15, 15, 30, 10, 0, 0, 0, 0] };
                 steps.push(WStep::Wr(match rng.weighted(&w) {
@@ -366,6 +373,21 @@ impl Prop for C06 {
                     expected.extend(serialize_response(&spec));
                     queued_resps.push(expected.len());
                     sig.u(1);
+                }
+                WStep::Clear => {
+                    let sent = conn.sh.borrow().accepted.len() - base;
+                    if sent > 0 && sent < expected.len() {
+                        st.probe("clear_during_partial_write");
+                    }
+                    let r = catch_unwind(AssertUnwindSafe(|| conn.c.clear_write_buffer()));
+                    st.lib_calls += 1;
+                    if r.is_err() {
+                        return viol("panic", i, "clear_write_buffer panicked".into(), &sig);
+                    }
+                    base = conn.sh.borrow().accepted.len();
+                    expected.clear();
+                    queued_resps.clear();
+                    sig.u(3);
                 }
                 WStep::Wr(op) => {
                     let sent_before = conn.sh.borrow().accepted.len() - base;
